@@ -315,13 +315,13 @@ def _binop(op, reg, pre, post=""):
 def _x86_refs():
     R = []
     a = R.append
-    a(Ref("64:data", "R_X86_64_64", "quad", "addr", "  mov .Lslot{i}(%rip),%rax\n  ret\n", ADDR, True,
+    a(Ref("64:data", "R_X86_64_64", "quad", "addr", "  mov slot{i}(%rip),%rax\n  ret\n", ADDR, True,
           data="  .quad {sa}\n"))
     a(Ref("32:mov", "R_X86_64_32", "mov-imm32", "addr", "  mov ${sa},%eax\n  ret\n", ADDR, True))
     a(Ref("32S:mov", "R_X86_64_32S", "mov-simm32", "addr", "  movq ${sa},%rax\n  ret\n", ADDR, True))
     a(Ref("PC32:lea", "R_X86_64_PC32", "lea", "addr", "  lea {sa}(%rip),%rax\n  ret\n", ADDR, True))
     a(Ref("PC64:quad", "R_X86_64_PC64", "quad", "addr",
-          "  lea .Lslot{i}(%rip),%rax\n  add (%rax),%rax\n  ret\n", ADDR, True, data="  .quad {sa}-.\n"))
+          "  lea slot{i}(%rip),%rax\n  add (%rax),%rax\n  ret\n", ADDR, True, data="  .quad {sa}-.\n"))
     a(Ref("PLT32:call", "R_X86_64_PLT32", "call", "ret",
           "  sub $8,%rsp\n  call {s}@PLT\n  add $8,%rsp\n  ret\n", CALL))
     a(Ref("PLT32:jmp", "R_X86_64_PLT32", "jmp", "ret", "  jmp {s}@PLT\n", CALL))
@@ -362,7 +362,7 @@ def _x86_refs():
     a(Ref("TPOFF32:mov", "R_X86_64_TPOFF32", "mov-simm32", "tls",
           "  movq ${sa}@tpoff,%rax\n  add %fs:0,%rax\n  ret\n", TLS, True))
     a(Ref("TPOFF64:data", "R_X86_64_TPOFF64", "quad", "tls",
-          "  mov .Lslot{i}(%rip),%rax\n  add %fs:0,%rax\n  ret\n", TLS, True, data="  .quad {sa}@tpoff\n"))
+          "  mov slot{i}(%rip),%rax\n  add %fs:0,%rax\n  ret\n", TLS, True, data="  .quad {sa}@tpoff\n"))
     a(Ref("GOTTPOFF:mov", "R_X86_64_GOTTPOFF", "mov", "tls",
           "  mov {s}@gottpoff(%rip),%rax\n  add %fs:0,%rax\n  ret\n", TLS))
     a(Ref("GOTTPOFF:add", "R_X86_64_GOTTPOFF", "add", "tls",
@@ -383,11 +383,11 @@ def _x86_refs():
           "  sub $8,%rsp\n  leaq {s}@tlsdesc(%rip),%rax\n  call *{s}@tlscall(%rax)\n  add %fs:0,%rax\n"
           "  add $8,%rsp\n  ret\n", TLS))
     a(Ref("DTPOFF64:block", "R_X86_64_DTPOFF64", "quad", "tls",
-          "  mov .Lslot{i}(%rip),%rax\n  add rt_tls_block(%rip),%rax\n  ret\n", TLS, True,
+          "  mov slot{i}(%rip),%rax\n  add rt_tls_block(%rip),%rax\n  ret\n", TLS, True,
           data="  .quad {sa}@dtpoff\n", outs=("static", "static-pie", "pie", "nonpie-dyn")))
     a(Ref("DTPOFF64:ld", "R_X86_64_DTPOFF64+TLSLD", "quad", "tls",
           "  sub $8,%rsp\n  leaq {s}@tlsld(%rip),%rdi\n  call __tls_get_addr@PLT\n"
-          "  add .Lslot{i}(%rip),%rax\n  add $8,%rsp\n  ret\n", TLS, True,
+          "  add slot{i}(%rip),%rax\n  add $8,%rsp\n  ret\n", TLS, True,
           data="  .quad {sa}@dtpoff\n", outs=("shared",)))
     a(Ref("SIZE32:mov", "R_X86_64_SIZE32", "mov-imm32", "size", "  mov ${sa}@SIZE,%eax\n  ret\n", SIZED, True))
     a(Ref("SIZE64:movabs", "R_X86_64_SIZE64", "movabs", "size", "  movabs ${sa}@SIZE,%rax\n  ret\n", SIZED, True))
@@ -442,7 +442,7 @@ def x86_probe_obj_src(cells, obj):
             continue
         fmt = dict(s=dn, sa=_sa(dn, a), i=i)
         if r.data:
-            out.append(f'.section .data.p{i},"aw",@progbits\n.balign 8\n.Lslot{i}:\n' + r.data.format(**fmt))
+            out.append(f'.section .data.p{i},"aw",@progbits\n.balign 8\nslot{i}:\n' + r.data.format(**fmt))
         out.append(f'.section .text.p{i},"ax",@progbits\n.globl p{i}\n.hidden p{i}\n'
                    f".type p{i},@function\np{i}:\n" + r.body.format(**fmt))
     out.append(NOTE)
@@ -458,10 +458,10 @@ def fields_for(d, r):
     functions), D = 8 bytes at X-A (data, TLS, common), C = result of calling X-A (functions)."""
     f = []
     if r.obs in ("addr", "plt") and d.cls in ("func", "ifunc"):
-        if d.module_local and r.obs == "addr":
-            f.append("W")
+        if d.module_local and r.obs == "addr" and d.cls == "func":
+            f.append("W")          # an IFUNC's address may be its PLT entry: only the call is checked
         f.append("C")
-    elif r.obs == "addr32" and d.cls in ("func", "ifunc") and d.module_local:
+    elif r.obs == "addr32" and d.cls == "func" and d.module_local:
         f.append("W")
     elif r.obs in ("addr", "tls") and d.cls in ("data", "tls", "common"):
         f.append("D")
@@ -576,9 +576,10 @@ def judge_x86(cells, idx, vals, truth=None):
         if "D" in f:
             exp.append(("*(X-A)", f["D"], 0 if d.cls == "common" else d.marker))
         if d.cls == "common" or (r.obs == "addr32" and "W" not in f):
-            if not truth or dn not in truth:
+            key = dn + "@" + r.obj if d.where == "local" else dn
+            if not truth or key not in truth:
                 return "unverifiable", "no ground truth for this observation"
-            exp.append(("X=truth+A", x, (truth[dn] + a) & m))
+            exp.append(("X=truth+A", x, (truth[key] + a) & m))
     if not exp:
         return "unverifiable", "no ground truth for this observation"
     badl = [f"{n}: observed {o:#x} expected {e:#x}" for n, o, e in exp if o != e]
@@ -598,5 +599,32 @@ def sibling_truth(cells, results):
             continue
         st, _ = judge_x86(cells, idx, vals)
         if st == "ok":
-            seen.setdefault(dn, set()).add((vals[0] - a) & M64)
+            seen.setdefault(dn + "@" + r.obj if d.where == "local" else dn, set()).add((vals[0] - a) & M64)
     return {k: next(iter(v)) for k, v in seen.items() if len(v) == 1}
+
+
+# Dynamic relocation types glibc's x86-64 ld.so applies (elf_machine_rela); any other type makes it
+# refuse the whole image, so a cell that produces one is taken out of the packed program.
+LOADER_OK_X86 = {0, 1, 2, 5, 6, 7, 8, 10, 16, 17, 18, 32, 33, 36, 37}
+
+
+def poison_cells(elf):
+    """[(idx, reloc type name)] of probes whose section carries a dynamic relocation ld.so rejects.
+    The reloc's r_offset is mapped to the probe through the p<i>/slot<i> symbols of .symtab."""
+    import bisect
+    rel = elf.dyn_relocs()
+    bad = [(o, t) for k in ("rela", "jmprel") for (o, t, s_, a) in rel[k] if t not in LOADER_OK_X86]
+    if not bad:
+        return []
+    marks = sorted((s.value, s.name) for s in elf.symbols(".symtab")
+                   if s.shndx and (s.name[:1] == "p" and s.name[1:].isdigit()
+                                   or s.name[:4] == "slot" and s.name[4:].isdigit()))
+    vals = [m[0] for m in marks]
+    out = []
+    for off, t in bad:
+        k = bisect.bisect_right(vals, off) - 1
+        if k >= 0 and off - vals[k] < 96:
+            out.append((int(marks[k][1].lstrip("pslot")), elf.reloc_name(t)))
+        else:
+            out.append((None, elf.reloc_name(t)))
+    return out
